@@ -200,14 +200,29 @@ def elem_cases(ctx, rng, lits, descr):
     import pandas as pd
     from formulaic import model_matrix
     from formulaic.transforms import TRANSFORMS
-    ns = list(range(0, 16))
-    df = pd.DataFrame({"n": [float(v) for v in ns], "p10": [10.0 ** v for v in ns], "p2": [2.0 ** v for v in ns]})
-    mm = model_matrix("0 + exp10(n) + exp2(n) + log10(p10) + log2(p2)", df)
-    cols = list(mm.columns)
-    for fn, col in enumerate(cols):
-        for v, got in zip(ns, mm[col].tolist()):
+    ns = list(range(0, 23))
+    # float and integer-typed columns: the functions are real functions of the VALUE, whatever the storage type
+    df = pd.DataFrame({"n": [float(v) for v in ns], "p10": [10.0 ** v for v in ns], "p2": [2.0 ** v for v in ns],
+                       "ni": pd.array(ns, dtype="int64"), "ns": pd.array(ns, dtype="int16"), "pi2": pd.array([2 ** v for v in ns], dtype="int64")})
+    terms = [("exp10(n)", 0), ("exp2(n)", 1), ("log10(p10)", 2), ("log2(p2)", 3), ("exp10(ni)", 0), ("exp2(ni)", 1), ("exp10(ns)", 0), ("log2(pi2)", 3)]
+    for term, fn in terms:
+        rp = {"kind": "elementwise", "term": term}
+        try:
+            with np.errstate(all="ignore"):
+                col = np.asarray(model_matrix("0 + " + term, df), dtype=float)[:, 0].tolist()
+        except Exception as e:
+            ctx.fail(f"{term}: {type(e).__name__}: {e}", rp)
+            continue
+        for v, got in zip(ns, col):
+            if not math.isfinite(got):
+                ctx.fail(f"{term} at {v}: {got!r}", rp)
+                continue
             lits.append("{| el_fn := %d; el_n := %d; el_v := %s |}" % (fn, v, fq(got)))
-            descr.append({"kind": "elementwise", "term": col, "n": v, "value": got})
+            descr.append({"kind": "elementwise", "term": term, "n": v, "value": got})
+            want = [10.0 ** v, 2.0 ** v, float(v), float(v)][fn]
+            ctx.oracle_runs += 1
+            if not math.isclose(got, want, rel_tol=1e-12, abs_tol=1e-12):
+                ctx.fail(f"{term} at {v} is {got!r}, the function of that name gives {want!r}", rp)
     ref = {"log": math.log, "log2": math.log2, "log10": math.log10, "exp": math.exp, "exp2": lambda x: 2.0 ** x, "exp10": lambda x: 10.0 ** x}
     partner = {"log": "exp", "log2": "exp2", "log10": "exp10", "exp": "log", "exp2": "log2", "exp10": "log10"}
     for i in range(ctx.n(60, 600)):
